@@ -2,7 +2,7 @@
 
 from .. import assemblers as A
 from .. import kernels as K
-from .. import rules, shapesets as S, symex
+from .. import guards, rules, shapesets as S, symex
 from ..alg import V, vsum
 from ..core import AnalysisError
 from ..symex import Arr, Interp, opaque_atom
@@ -95,3 +95,4 @@ def run(ctx):
     piola(ctx)
     role_symmetry(ctx)
     rules.factory_sites(ctx, "boundary")
+    guards.factory_guards(ctx, "boundary")
